@@ -50,6 +50,11 @@ type hop struct {
 	Raw    string          `json:"raw,omitempty"`    // expression / comment source text to be lexed
 	Labels []string        `json:"labels,omitempty"` // block labels
 	Index  int             `json:"index,omitempty"`  // block index in Blocks() / shelf index
+	// set-raw only: the caller builds the tokens with a public generator function
+	// ("tuple", "call", "object") from the pieces Parts (source text, lexed) instead of lexing Raw
+	Via   string   `json:"via,omitempty"`
+	Fn    string   `json:"fn,omitempty"`
+	Parts []string `json:"parts,omitempty"`
 }
 
 func (o hop) String() string {
@@ -60,6 +65,14 @@ func (o hop) String() string {
 	case opSetTrav:
 		return fmt.Sprintf("body%s.SetAttributeTraversal(%q, %s)", p, o.Name, o.Trav)
 	case opSetRaw:
+		switch o.Via {
+		case "tuple":
+			return fmt.Sprintf("body%s.SetAttributeRaw(%q, TokensForTuple(lex each of %q))", p, o.Name, o.Parts)
+		case "call":
+			return fmt.Sprintf("body%s.SetAttributeRaw(%q, TokensForFunctionCall(%q, lex each of %q))", p, o.Name, o.Fn, o.Parts)
+		case "object":
+			return fmt.Sprintf("body%s.SetAttributeRaw(%q, TokensForObject(name/value pairs, lex each of %q))", p, o.Name, o.Parts)
+		}
 		return fmt.Sprintf("body%s.SetAttributeRaw(%q, lex(%q))", p, o.Name, o.Raw)
 	case opRename:
 		return fmt.Sprintf("body%s.RenameAttribute(%q, %q)", p, o.Name, o.To)
@@ -91,6 +104,9 @@ type tcase struct {
 	Src    string `json:"src"`
 	Pre    []hop  `json:"pre,omitempty"` // operations applied before the first observation ("generated via the API")
 	Ops    []hop  `json:"ops"`
+	// who owns what (caller.go): 0 every call gets fresh arguments; 1 slice arguments of successive calls are
+	// cut from one shared backing array, results are scribbled over; 2 as 1 and arguments are scribbled over after the call
+	Caller int `json:"caller,omitempty"`
 }
 
 func (c *tcase) JSON() string {
@@ -100,6 +116,9 @@ func (c *tcase) JSON() string {
 
 func (c *tcase) Pretty() string {
 	var sb strings.Builder
+	if c.Caller != callerFresh {
+		fmt.Fprintf(&sb, "// caller: %s (slice arguments share one backing array; see harness/cmd/c12/caller.go)\n", callerName(c.Caller))
+	}
 	if c.Parsed {
 		fmt.Fprintf(&sb, "f := ParseConfig(%q)\n", c.Src)
 	} else {
@@ -462,8 +481,80 @@ func (g *histGen) setOp(p []int, name string) hop {
 	case 1:
 		return hop{Kind: opSetTrav, Path: p, Name: name, Trav: genTraversal(g.r)}
 	default:
+		if g.r.Chance(0.2) {
+			return g.viaOp(p, name)
+		}
 		return hop{Kind: opSetRaw, Path: p, Name: name, Raw: genRawExpr(g.r)}
 	}
+}
+
+var viaPieces = []string{"a", "1", "var.x", `"s"`, "f(1)", "[1, 2]", "x + 1", "local.table", "true", `"${v}"`, "a[0].b"}
+var viaNames = []string{"k", "name", `"q r"`, "(a.b)", "x1"}
+
+// viaOp: SetAttributeRaw with tokens built through TokensForTuple / TokensForFunctionCall / TokensForObject
+func (g *histGen) viaOp(p []int, name string) hop {
+	o := hop{Kind: opSetRaw, Path: p, Name: name, Via: g.r.Pick("tuple", "call", "object")}
+	n := g.r.Small(4)
+	g.feat["arg:raw-via-"+o.Via]++
+	switch o.Via {
+	case "call":
+		o.Fn = g.r.Pick("lookup", "f", "max", "ünï")
+		fallthrough
+	case "tuple":
+		for i := 0; i < n; i++ {
+			o.Parts = append(o.Parts, viaPieces[g.r.Intn(len(viaPieces))])
+		}
+	default:
+		used := map[string]bool{}
+		for i := 0; i < n; i++ {
+			k := viaNames[g.r.Intn(len(viaNames))]
+			if used[k] {
+				continue
+			}
+			used[k] = true
+			o.Parts = append(o.Parts, k, viaPieces[g.r.Intn(len(viaPieces))])
+		}
+	}
+	return o
+}
+
+// aliasRun: the shape in which a library that keeps (part of) an argument slice shows even with a caller
+// that never scribbles: 2-5 consecutive raw-token sets of DISTINCT, new attributes of one body whose
+// expressions share a prefix (`var.` + name, `lookup(local.table, ` + key + `)`), interleaved with the
+// other slice-taking calls (labels, traversal, unstructured tokens).
+func (g *histGen) aliasRun() []hop {
+	p := g.pickPath()
+	b := g.m.bodyAt(p)
+	n := 2 + g.r.Intn(4)
+	templ := g.r.Intn(3)
+	var out []hop
+	emit := func(o hop) {
+		g.m.apply(o)
+		out = append(out, o)
+	}
+	for i := 0; i < n; i++ {
+		name := fmt.Sprintf("%s_%d", g.r.Pick("zone", "tier", "owner", "key"), i)
+		if b.has(name) {
+			continue
+		}
+		switch templ {
+		case 0:
+			emit(hop{Kind: opSetRaw, Path: p, Name: name, Raw: "var." + name})
+		case 1:
+			emit(hop{Kind: opSetRaw, Path: p, Name: name, Raw: fmt.Sprintf("lookup(local.table, key%d)", i)})
+		default:
+			emit(hop{Kind: opSetRaw, Path: p, Name: name, Via: "call", Fn: "lookup", Parts: []string{"local.table", fmt.Sprintf("key%d", i)}})
+		}
+		switch g.r.Intn(6) {
+		case 0:
+			emit(hop{Kind: opAppendRaw, Path: p, Raw: g.r.Pick("# c\n", "// note\n", "/* x */\n")})
+		case 1:
+			emit(hop{Kind: opAppendNewBlock, Path: p, Name: blockTypes[g.r.Intn(len(blockTypes))], Labels: g.labels()})
+		case 2:
+			emit(hop{Kind: opSetTrav, Path: p, Name: name + "_t", Trav: genTraversal(g.r)})
+		}
+	}
+	return out
 }
 
 // next generates one operation against the current mirror state and applies it
@@ -597,8 +688,29 @@ func genCase(r *hv.Rng, feat map[string]int) *tcase {
 	if r.Chance(0.4) {
 		n = 1 + r.Intn(40)
 	}
+	// the caller (ownership of arguments and results)
+	switch x := r.Intn(100); {
+	case x < 40:
+		c.Caller = callerFresh
+	case x < 65:
+		c.Caller = callerAliasing
+	default:
+		c.Caller = callerScribbler
+	}
+	runAt := -1
+	if r.Chance(0.1) {
+		runAt = r.Intn(n)
+		if c.Caller == callerFresh {
+			c.Caller = callerAliasing
+		}
+		feat["shape:alias-run(shared-prefix raw sets of distinct attributes)"]++
+	}
 	var last *hop
 	for i := 0; i < n; i++ {
+		if i == runAt {
+			c.Ops = append(c.Ops, g.aliasRun()...)
+			last = nil
+		}
 		o := g.next(last)
 		c.Ops = append(c.Ops, o)
 		last = &c.Ops[len(c.Ops)-1]
